@@ -199,10 +199,23 @@ def build_corr():
                 if fn.endswith(".go"):
                     rel = os.path.relpath(os.path.join(dp, fn), root)
                     ov[os.path.join(REPO, rel)] = os.path.join(dp, fn)
-        ovp = os.path.join(BUILD, "overlay.json")
-        json.dump({"Replace": ov}, open(ovp, "w"), indent=1)
         mod = open(os.path.join(HARNESS, "go.mod.tmpl")).read().replace("@REPO@", REPO)
         open(os.path.join(HARNESS, "go.mod"), "w").write(mod)
+        # generated overlay files (kernels that are not functions of their own in REPO, copied textually from
+        # REPO's working tree into exported wrappers): harness/cmd/overlaygen <REPO> <dir>, same layout as overlay/
+        gen_root = os.path.join(BUILD, "overlay_gen")
+        shutil.rmtree(gen_root, ignore_errors=True)
+        if os.path.isdir(os.path.join(HARNESS, "cmd", "overlaygen")):
+            rc, out, dt = sh(["go", "run", "./cmd/overlaygen", REPO, gen_root], cwd=HARNESS, env=goenv(), timeout=600)
+            if rc != 0:
+                return False, "overlaygen failed:\n" + out, dt
+            for dp, _, fns in os.walk(gen_root):
+                for fn in fns:
+                    if fn.endswith(".go"):
+                        rel = os.path.relpath(os.path.join(dp, fn), gen_root)
+                        ov[os.path.join(REPO, rel)] = os.path.join(dp, fn)
+        ovp = os.path.join(BUILD, "overlay.json")
+        json.dump({"Replace": ov}, open(ovp, "w"), indent=1)
         rc, out, dt = sh(["go", "build", "-tags", "verif", "-overlay", ovp, "-o", CORR, "./cmd/corr"], cwd=HARNESS, env=goenv(), timeout=1800)
     return rc == 0, out, dt
 
@@ -251,12 +264,24 @@ def exec_ops(suite, ops, rundir, r=None):
     ol = open(ops, errors="replace").read().splitlines()
     if len(il) != len(ml):
         r["error"] = "line count differs impl=%d model=%d" % (len(il), len(ml))
-    for i, (a, b) in enumerate(zip(il, ml)):
-        if a != b:
-            r["mismatches"].append(dict(line=i + 1, op=ol[i] if i < len(ol) else "?", impl=a, model=b))
-            if len(r["mismatches"]) >= 50:
-                break
-    r["agreed"] = sum(1 for a, b in zip(il, ml) if a == b)
+    if suite.startswith("e2e"):
+        # the model side is the SPECIFICATION's answer: compare with the latitude the property grants
+        import e2ecmp
+        agreed = 0
+        for i, (a, b) in enumerate(zip(il, ml)):
+            fs = e2ecmp.compare(a, b)
+            if not fs:
+                agreed += 1
+            for sig, msg in fs:
+                r["propfails"].append(dict(line=i + 1, sig=sig, msg=msg, op=ol[i] if i < len(ol) else "?"))
+        r["agreed"] = agreed
+    else:
+        for i, (a, b) in enumerate(zip(il, ml)):
+            if a != b:
+                r["mismatches"].append(dict(line=i + 1, op=ol[i] if i < len(ol) else "?", impl=a, model=b))
+                if len(r["mismatches"]) >= 50:
+                    break
+        r["agreed"] = sum(1 for a, b in zip(il, ml) if a == b)
     pf = os.path.join(rundir, suite + ".prop")
     if os.path.exists(pf):
         for l in open(pf):
@@ -273,10 +298,10 @@ def load_known(prop):
         for l in open(p):
             l = l.strip()
             m = re.match(r"known:\s+property=(\S+)\s+sig=(\S+)\s+(.*)", l)
-            if m and m.group(1) == prop:
+            if m and prop in m.group(1).split(","):
                 known.append((m.group(2), m.group(3)))
             m = re.match(r"fixed:\s+property=(\S+)\s+(\S+)\s+(.*)", l)
-            if m and m.group(1) == prop:
+            if m and prop in m.group(1).split(","):
                 fixed.append((m.group(2), m.group(3)))
     return known, fixed
 
@@ -405,6 +430,17 @@ def run_check(prop, tier, seed):
 
     # 4. verdict
     known_sigs = {k for k, _ in known}
+
+    def sig_known(sig):
+        """exact match, or a composite e2e sig  prefix/a+b  all of whose classes prefix/a, prefix/b are listed"""
+        if sig in known_sigs:
+            return [sig]
+        if "+" in sig and "/" in sig:
+            pre, _, last = sig.rpartition("/")
+            parts = [pre + "/" + c for c in last.split("+")]
+            if all(p in known_sigs for p in parts):
+                return parts
+        return None
     seen_known = {}
     unlisted_pf = []
     mism = []
@@ -413,8 +449,10 @@ def run_check(prop, tier, seed):
         if r.get("error"):
             errors.append((r["suite"], r["error"]))
         for pf in r["propfails"]:
-            if pf["sig"] in known_sigs:
-                seen_known[pf["sig"]] = seen_known.get(pf["sig"], 0) + 1
+            ks = sig_known(pf["sig"])
+            if ks:
+                for k in ks:
+                    seen_known[k] = seen_known.get(k, 0) + 1
             else:
                 unlisted_pf.append((r["suite"], pf))
         for m in r["mismatches"]:
